@@ -111,6 +111,8 @@ AllArrs == {"local", "rootid", "rootidhash", "absref", "relid", "storeabs", "sto
 QuickNames == {1, 2, 3, 5, 6, 8, 10, 13}
 ThoroughNames == DOMAIN AllNames
 
+OtherIdOnly == {"otherid"}
+
 Init == stage = 0 /\ bi = 1 /\ pos = <<>> /\ name = <<>> /\ arr = "local"
 ChooseBase == stage = 0 /\ bi' \in DOMAIN Bases /\ stage' = 1 /\ UNCHANGED <<pos, name, arr>>
 ChoosePos  == stage = 1 /\ pos' \in { p \in SubschemaPaths(D, T) : Extractable(p) } /\ stage' = 2 /\ UNCHANGED <<bi, name, arr>>
